@@ -239,6 +239,13 @@ func (c *Client) Get(_ context.Context, key client.ObjectKey, obj client.Object,
 		k.Namespace = ""
 		ev.Key = k
 	}
+	if w.unserved[k.GK()] {
+		e := &meta.NoKindMatchError{GroupKind: k.GK(), SearchedVersions: []string{gvk.Version}}
+		ev.Err, ev.Reason = e.Error(), "NoKindMatch"
+		w.record(&ev)
+		w.mu.Unlock()
+		return e
+	}
 	if out == OK && c.FaultFn != nil {
 		out = c.FaultFn(idx, "get", k)
 	}
@@ -305,6 +312,13 @@ func (c *Client) List(_ context.Context, list client.ObjectList, opts ...client.
 	w := c.w
 	w.mu.Lock()
 	ev := Event{Actor: c.Actor, Call: idx, Verb: "list", Key: Key{Group: gvk.Group, Kind: gvk.Kind, Namespace: lo.Namespace}, Version: gvk.Version}
+	if w.unserved[gvk.GroupKind()] {
+		e := &meta.NoKindMatchError{GroupKind: gvk.GroupKind(), SearchedVersions: []string{gvk.Version}}
+		ev.Err, ev.Reason = e.Error(), "NoKindMatch"
+		w.record(&ev)
+		w.mu.Unlock()
+		return e
+	}
 	if out == OK && c.FaultFn != nil {
 		out = c.FaultFn(idx, "list", ev.Key)
 	}
@@ -471,6 +485,13 @@ func (c *Client) do(req *writeReq) (map[string]any, error) {
 	}
 	ev := Event{Actor: c.Actor, Call: idx, Verb: req.verb, Key: req.key, Version: req.gvk.Version, Sub: req.sub,
 		PatchType: req.patchType, FieldOwner: req.fieldOwner, Force: req.force, DryRun: req.dryRun, Body: req.body}
+	if w.unserved[req.key.GK()] {
+		e := &meta.NoKindMatchError{GroupKind: req.key.GK(), SearchedVersions: []string{req.gvk.Version}}
+		ev.Err, ev.Reason = e.Error(), "NoKindMatch"
+		w.record(&ev)
+		w.mu.Unlock()
+		return nil, e
+	}
 	if out == OK && c.FaultFn != nil {
 		out = c.FaultFn(idx, req.verb, req.key)
 	}
@@ -1022,6 +1043,20 @@ func (c *Client) delete(gvk schema.GroupVersionKind, k Key, do *client.DeleteOpt
 		}
 		next := runtime.DeepCopyJSON(cur)
 		fs, _, _ := unstructured.NestedStringSlice(next, "metadata", "finalizers")
+		// A CustomResourceDefinition with instances is not removed at once: the API server's
+		// cleanup finalizer keeps it until every instance is gone (see gc.go crd-cleanup).
+		if k.Kind == "CustomResourceDefinition" && k.Group == "apiextensions.k8s.io" && len(w.instancesOf(cur)) > 0 {
+			has := false
+			for _, f := range fs {
+				if f == CRDCleanupFinalizer {
+					has = true
+				}
+			}
+			if !has {
+				fs = append(fs, CRDCleanupFinalizer)
+				unstructured.SetNestedStringSlice(next, fs, "metadata", "finalizers") //nolint:errcheck
+			}
+		}
 		if do.PropagationPolicy != nil {
 			want := ""
 			switch *do.PropagationPolicy {
@@ -1059,6 +1094,12 @@ func (c *Client) DeleteAllOf(ctx context.Context, obj client.Object, opts ...cli
 	gvk, err := c.gvk(obj)
 	if err != nil {
 		return err
+	}
+	c.w.mu.Lock()
+	gone := c.w.unserved[gvk.GroupKind()]
+	c.w.mu.Unlock()
+	if gone {
+		return &meta.NoKindMatchError{GroupKind: gvk.GroupKind(), SearchedVersions: []string{gvk.Version}}
 	}
 	var keys []Key
 	c.w.Read(func(v *View) {
